@@ -52,7 +52,7 @@ MC_ACTIONS = ("PickInput", "PickA", "PickB", "PickProbe", "PickCritA", "PickCrit
               "NormFilterSort", "MergeStart", "MergeHole", "MergeExtend", "MergeFinish", "SweepStart",
               "InterOverlap", "InterDisjoint", "InterFinish", "DiffDrain", "DiffSkipS", "DiffEmitR",
               "DiffOverlapTail", "DiffOverlapEnd", "DiffFinish", "ContainsEval")
-BATCH = 50000
+BATCH = 70000
 # TLC (this version) re-reads the JSON trace once per worker before the search starts; the records are
 # cheap to judge, so few workers are faster than 16
 EVAL_WORKERS = 4
@@ -298,8 +298,8 @@ def small_records(ctx, rec):
             ja, jb = (ma + 3 * mb) % 8, (5 * ma + mb + 1) % 8
             if ma == mb and ja == jb:
                 jb = (jb + 1) % 8
-            # quick: all pairs inside the 6-element sub-universe, a seeded 15% of the rest
-            if not thorough and (ma | mb) >> (UN - 1) and rng.random() > 0.15:
+            # quick: all pairs inside the 6-element sub-universe, a seeded half of the rest
+            if not thorough and (ma | mb) >> (UN - 1) and rng.random() > 0.5:
                 continue
             rec.binary(var[ma][ja], var[mb][jb], objs[ma][ja], objs[mb][jb], False)
             rec.equal(var[ma][ja], var[mb][jb], objs[ma][ja], objs[mb][jb], False)
@@ -315,7 +315,7 @@ def big_records(ctx, rec):
     rng = ctx.rng
     thorough = ctx.tier == "thorough"
     anchors = [0, 1 << 31, 1 << 32, 1 << 63, 1 << 64, -(1 << 31), -(1 << 63), -(1 << 64), 0x10FFFF, 1 << 100]
-    for case in range(700 if thorough else 110):
+    for case in range(1500 if thorough else 110):
         grid = set()
         for _ in range(rng.randrange(2, 5)):
             p = rng.choice(anchors) + rng.randrange(-3, 4) if rng.random() < 0.7 else rng.randrange(-(1 << 70), 1 << 70)
@@ -358,9 +358,7 @@ def big_records(ctx, rec):
         rec.equal(va, vc, oa, oc, True)
 
 
-def records(ctx):
-    from ppci.utils import integer_set
-
+def records(ctx, integer_set):
     rec = Recorder(integer_set.IntegerSet, integer_set.merge_overlapping_intervals)
     small_records(ctx, rec)
     big_records(ctx, rec)
@@ -392,7 +390,7 @@ class Engine:
                  "subset of the 7-element universe -3..3 constructed from 8 different argument lists (canonical, single "
                  "ints, adjacent/overlapping pieces, duplicates, nested, unsorted, empty ranges); union/intersection/"
                  "difference/symmetric_difference (method and operator) and ==/!=/hash on pairs of subsets (thorough: "
-                 "all 16384 pairs; quick: all 4096 pairs of the 6-element sub-universe + a seeded 15% of the rest); "
+                 "all 16384 pairs; quick: all 4096 pairs of the 6-element sub-universe + a seeded half of the rest); "
                  "contains/in for every probe in -5..5, cardinality/len, bool/empty, iteration, "
                  "merge_overlapping_intervals; seeded random sets over integers up to 2^100 judged by critical points; "
                  "distinct = distinct (operation, argument lists)")
@@ -400,14 +398,20 @@ class Engine:
         ctx.assume("a result is observed through its .ranges attribute (the representation the canonical-form clause "
                    "speaks about); results with endpoints beyond +-64 in the small universe are recorded as failures")
         if ctx.only is None:
-            res = ctx.tlc("IntSet_MC", MC_CFG % ((7, 4, 3, 4, 1, 70) if thorough else (5, 3, 3, 3, 1, 40)), label="laws")
+            res = ctx.tlc("IntSet_MC", MC_CFG % ((8, 4, 3, 4, 1, 70) if thorough else (5, 3, 3, 3, 1, 40)), label="laws")
             _clean(res, "IntSet_MC")
             for e in res.errors:
                 raise core.tlcmod.MachineryError("IntSet law fails in the specification itself: %s" % e)
             missing = [a for a in MC_ACTIONS if not ctx.cov["actions"].get("IntSet_MC." + a)]
             if missing:
                 raise core.tlcmod.MachineryError("IntSet_MC: actions never taken: %s" % missing)
-        recs = records(ctx)
+        try:
+            from ppci.utils import integer_set
+            integer_set.IntegerSet, integer_set.merge_overlapping_intervals
+        except Exception as e:  # a changed tree may not even import: that is a failure of the property
+            ctx.violation("C33:import", "ppci.utils.integer_set cannot be used: %s: %s" % (type(e).__name__, e))
+            return
+        recs = records(ctx, integer_set)
         if ctx.only is not None:
             recs = [r for r in recs if r["key"] == ctx.only["key"]]
         for r in recs:
